@@ -386,4 +386,24 @@ theorem sqrt_pos_of [Transc α] (h : SqrtContract α) (x : α) (hx : 0 < x) : 0 
   · exact h3
   · rw [← h3] at h1; simp at h1; linarith
 
+
+
+/-- variance with any `ddof` of an affine image (used with `ddof = 1` for covariances) -/
+theorem varCol_affine_ddof (d : α) (l : List α) (a b : α) :
+    varCol d (l.map fun x => a * x + b) = a * a * varCol d l := by
+  unfold varCol
+  rw [welford_state, welford_state]
+  simp only [List.length_map]
+  rw [← mul_div_assoc]
+  congr 1
+  rcases l with _ | ⟨y, ys⟩
+  · simp
+  · have hn := (length_pos_cast (List.cons_ne_nil y ys)).ne'
+    rw [sum_map_affine, List.map_map]
+    have := sumsq_map_affine (y :: ys) a b
+    simp only [Function.comp_def] at this ⊢
+    rw [this]
+    field_simp
+    ring
+
 end LinfaSpec.Proofs.Scaling
